@@ -8,6 +8,8 @@ import (
 	"errors"
 	"fmt"
 	"io"
+	"runtime"
+	"strconv"
 	"strings"
 	"sync"
 	"sync/atomic"
@@ -25,6 +27,19 @@ type StoreCall struct {
 	File string `json:"file,omitempty"`
 	N    int    `json:"n,omitempty"`
 	Err  bool   `json:"err,omitempty"`
+	Gor  uint64 `json:"-"` // calling goroutine
+}
+
+// goid returns the current goroutine's id (parsed from the stack header; diagnostics only).
+func goid() uint64 {
+	var buf [64]byte
+	n := runtime.Stack(buf[:], false)
+	f := strings.Fields(string(buf[:n]))
+	if len(f) < 2 {
+		return 0
+	}
+	id, _ := strconv.ParseUint(f[1], 10, 64)
+	return id
 }
 
 // MemStore is an in-memory DataStore. Published files are visible to OpenFile only after a
@@ -52,6 +67,8 @@ type MemStore struct {
 	extents       []ReadExtent
 	nextHandle    int
 	ReadDelay     time.Duration
+	// DeferTombstone: tombstoned files stay readable (a store that garbage-collects lazily)
+	DeferTombstone bool
 }
 
 type handleEvent struct {
@@ -86,6 +103,7 @@ func (s *MemStore) call(op, file string, n int) bool {
 	if g := s.Gate; g != nil {
 		g(op, file)
 	}
+	gid := goid()
 	s.mu.Lock()
 	defer s.mu.Unlock()
 	fail := false
@@ -96,7 +114,7 @@ func (s *MemStore) call(op, file string, n int) bool {
 		}
 	}
 	s.seq++
-	s.log = append(s.log, StoreCall{Seq: s.seq, Op: op, File: file, N: n, Err: fail})
+	s.log = append(s.log, StoreCall{Seq: s.seq, Op: op, File: file, N: n, Err: fail, Gor: gid})
 	return fail
 }
 
@@ -345,7 +363,9 @@ func (s *MemStore) TombstoneFile(ctx context.Context, ptr []byte) error {
 		return errInjected
 	}
 	s.mu.Lock()
-	delete(s.files, name)
+	if !s.DeferTombstone {
+		delete(s.files, name)
+	}
 	delete(s.pending, name)
 	s.tomb = append(s.tomb, name)
 	s.mu.Unlock()
@@ -357,6 +377,7 @@ type FaultMeta struct {
 	bs.MetaStore
 	s          *MemStore
 	iterFaults bool // also log / fail GetMaybeFilesForQuery as op "iter"
+	yieldGate  bool // log (and gate) every yielded file as op "yield"
 }
 
 func (m *FaultMeta) Update(ctx context.Context, w []bs.WriteOperation, d []bs.DeleteOperation) error {
